@@ -10,10 +10,11 @@ from vcheck import Machinery, pmap
 NAMES = '{"a", "b"}'
 
 
-def _cfg(spec, wtop, win, props=True):
+def _cfg(spec, wtop, win, props=True, live=True):
     return ('SPECIFICATION %s\nCHECK_DEADLOCK FALSE\nCONSTANTS\n  Names = %s\n  Keys = %s\n  WTop = %d\n  WIn = %d\n' % (
         spec, NAMES, NAMES, wtop, win)
-        + ('INVARIANT Refines\nINVARIANT StackBound\nINVARIANT OutIsPrefix\nPROPERTY Terminates\n' if props else ''))
+        + ('INVARIANT Refines\nINVARIANT StackBound\nINVARIANT OutIsPrefix\n' if props else '')
+        + ('PROPERTY Terminates\n' if props and live else ''))
 
 
 def _build(node, path, index):
@@ -118,8 +119,12 @@ def check_tree(case):
 
 def run(ctx):
     """model check the I-spec against the A-spec, then replay every tree on real TElement objects"""
+    # liveness (Terminates) is checked on the small family in both tiers (TLC checks it on one thread: the larger family
+    # took more than 50 minutes on a busy machine); the thorough tier adds the safety properties of the larger family
+    ctx.tlc('llparser/TreeNav.tla', _cfg('Spec', 2, 1), workers=16, timeout=3000, heap='12g')
     wtop, win = (2, 1) if ctx.quick else (2, 2)
-    ctx.tlc('llparser/TreeNav.tla', _cfg('Spec', wtop, win), workers=16, timeout=3000, heap='12g')
+    if not ctx.quick:
+        ctx.tlc('llparser/TreeNav.tla', _cfg('Spec', wtop, win, live=False), workers=16, timeout=3000, heap='12g')
     r = ctx.tlc('llparser/TreeNav.tla', _cfg('BSpec', 2, 1, props=False), workers=16, timeout=3000, heap='12g')
     cases = [c for c in r.printed if isinstance(c, dict)]
     if len(cases) < 1000:
